@@ -620,6 +620,105 @@ func (m *fieldModel) dispatch(c *Ctx) {
 		}
 		return nil
 	}
+	// the routine as a value: a helper picks the request for a flag and hands it back to Get, which calls
+	// what it was handed (`name, fill := c.txSource(filter); fill(ctx, url, bm, start, limit)`): a method value
+	// of a routine, or a function literal that does nothing but call one, made under the flag's test in a
+	// dispatch helper whose result Get uses
+	routineOfClosure := func(mc *ssa.MakeClosure) *ssa.Function {
+		cf, _ := mc.Fn.(*ssa.Function)
+		if cf == nil {
+			return nil
+		}
+		isRout := func(rf *ssa.Function) bool {
+			if rf == nil || rf.Signature.Recv() == nil || !repoNamedIs(rf.Signature.Recv().Type(), "jrpc2", "Client") || rf.Name() == "Get" {
+				return false
+			}
+			for _, df := range dispFns {
+				if df == rf {
+					return false
+				}
+			}
+			return true
+		}
+		if obj, ok := cf.Object().(*types.Func); ok && obj != nil {
+			if rf := w.Prog.FuncValue(obj); isRout(rf) {
+				return rf
+			}
+		}
+		if cf.Parent() == nil || cf.Blocks == nil {
+			return nil
+		}
+		var only *ssa.Function
+		n := 0
+		for _, ci := range callsIn(cf) {
+			if rf := staticCallee(ci); isRout(rf) {
+				only = rf
+				n++
+			}
+		}
+		if n == 1 {
+			return only
+		}
+		return nil
+	}
+	type routSite struct {
+		at ssa.Instruction
+		r  *ssa.Function
+	}
+	var valueSites []routSite
+	for _, df := range dispFns {
+		if df == get {
+			continue
+		}
+		// the helper's result is used by its caller
+		used := false
+		if site := greg.site[df]; site != nil {
+			if v, isV := site.(ssa.Value); isV && v.Referrers() != nil {
+				for _, ref := range *v.Referrers() {
+					if _, dbg := ref.(*ssa.DebugRef); !dbg {
+						used = true
+					}
+				}
+			}
+		}
+		if !used {
+			continue
+		}
+		allInstrs(df, func(in ssa.Instruction) {
+			mc, ok := in.(*ssa.MakeClosure)
+			if !ok {
+				return
+			}
+			// not one that is an argument of a call right here (those are read below)
+			for _, ref := range *mc.Referrers() {
+				if _, isCall := ref.(ssa.CallInstruction); isCall {
+					return
+				}
+			}
+			if r := routineOfClosure(mc); r != nil {
+				valueSites = append(valueSites, routSite{mc, r})
+			}
+		})
+	}
+	flagList := func() []*types.Var {
+		var flags []*types.Var
+		for f := range flagEdges {
+			flags = append(flags, f)
+		}
+		sort.Slice(flags, func(i, j int) bool { return flags[i].Name() < flags[j].Name() })
+		return flags
+	}
+	for _, vs := range valueSites {
+		for _, f := range flagList() {
+			ed := flagEdges[f]
+			if greg.Guarded(vs.at, ed[0]) {
+				m.routOf[f] = vs.r
+			}
+			if greg.Guarded(vs.at, ed[1]) {
+				m.supp[vs.r] = append(m.supp[vs.r], f)
+			}
+		}
+	}
 	for _, df := range dispFns {
 		for _, ci := range callsIn(df) {
 			r := routineOfCall(ci)
